@@ -14,7 +14,7 @@ if ! go build ./... 2>"$wt.build.log"; then echo "NOT-A-MUTANT (does not build):
 rm -f $wt.build.log
 if ! go test -vet=off -count=1 ./... > "$wt.test.log" 2>&1; then echo "NOT-A-MUTANT (pinned tests fail): $(grep -m3 -e FAIL -e '^---' $wt.test.log | tr '\n' ' ')"; rm -f $wt.test.log; exit 0; fi
 rm -f $wt.test.log
-cd /verif
+cd "${VERIF_HOME:-/verif}"
 out=$(VERIF_REPO="$wt" VERIF_EVIDENCE_DIR="$wt/evidence" timeout 2400 ./check.sh "$id" "$tier" 2>&1); rc=$?
 n=$(echo "$out" | grep -c '^VIOLATION')
 first=$(echo "$out" | grep -m1 '^VIOLATION' | cut -c1-300)
